@@ -284,7 +284,8 @@ def shape_of(f):
     cmps = sorted(ast.unparse(x) for x in ast.walk(f) if isinstance(x, ast.Compare) and len(x.ops) == 1 and type(x.ops[0]) in _SWAP)
     ifs = sorted(_if_key(x.test, x.body) for x in ast.walk(f) if plain_if_else(x))
     fmts = sorted(ast.unparse(x) for x in ast.walk(f) if fmt_equiv(x) is not None)
-    return {'cmp': cmps, 'if': ifs, 'fmt': fmts}
+    defs = sorted(x.name for x in ast.walk(f) if isinstance(x, ast.FunctionDef) and x is not f)
+    return {'cmp': cmps, 'if': ifs, 'fmt': fmts, 'defs': defs}
 
 
 class _FmtBack(ast.NodeTransformer):
@@ -506,8 +507,12 @@ def canonicalise(module_name, tree):
     reference tree does not have; returns list of notes"""
     notes = []
     r = ref().get(module_name, {})
-    if r:
-        notes += ['%s.%s' % (module_name, x) for x in inline_new_helpers(tree, {q for q in r if '.' not in q})]
+    if r and not os.environ.get('VERIF_NO_INLINE'):
+        from . import splice as _splice
+        sh = shapes().get(module_name, {})
+        notes += ['%s: %s' % (module_name, x) for x in _splice.splice(
+            tree, {q for q in r if '.' not in q}, {q for q in r if '.' in q},
+            {q: v.get('defs', []) for q, v in sh.items()}, top_functions)]
     mg = module_globals_of(tree)
     for qual, f in top_functions(tree):
         want = r.get(qual)
